@@ -108,3 +108,17 @@ def validate(ex, repo, kinds=('t2d', 'invalid', 'replace'), verbose=False):
             if verbose:
                 print('MISMATCH', c, info)
     return len(cases), bad, time.time() - t0
+
+
+if __name__ == '__main__':
+    # translator validation: the repository's own test triples through the MIR executor (concrete mode)
+    import os
+    import sys
+    sys.path.insert(0, os.path.dirname(os.path.dirname(os.path.abspath(__file__))))
+    from checks.common import new_executor, REPO
+    ex_ = new_executor()
+    n_, bad_, dt_ = validate(ex_, REPO)
+    print('translator validation: %d cases from the repository tests, %d mismatches, %.1fs' % (n_, len(bad_), dt_))
+    for b_ in bad_[:10]:
+        print('  MISMATCH', b_)
+    sys.exit(2 if bad_ or n_ < 100 else 0)
